@@ -102,24 +102,30 @@ def run(P: Program, R: Report, tier: str) -> None:
             loops = [lp for lp in ast.walk(m.node) if isinstance(lp, ast.For) and c in list(ast.walk(lp))]
             ends = edge_endpoints(m, loops[-1]) if loops else None
             if ends is None or len(c.args) != 2:
-                R.fail("R09.3", m, c, f"{m.short}: kernel call is tied to one edge", "cannot relate the frames to an edge's endpoints")
+                R.undecided("R09.3", m, c, f"{m.short}: kernel call is tied to one edge", "cannot relate the frames to an edge's endpoints: not decided")
                 continue
             r1 = time_role(m, frame_index(m, c.args[0]), *ends)
             r2 = time_role(m, frame_index(m, c.args[1]), *ends)
-            R.check(r1 == "source" and r2 == "target", "R09.3", m, c,
-                    f"{m.short}: kernel frames are the frames at time(source) and time(target) of the edge being updated",
-                    f"first frame indexed by {norm(frame_index(m, c.args[0]) or ast.Constant('?'))}, second by {norm(frame_index(m, c.args[1]) or ast.Constant('?'))}: "
-                    "an edge that skips frames is compared against the wrong frame", via="provenance")
+            cst = f"{m.short}: kernel frames are the frames at time(source) and time(target) of the edge being updated"
+            if r1 == "source" and r2 == "target":
+                R.ok("R09.3", m, c, cst, via="provenance")
+            elif {r1, r2} == {"source", "target"}:
+                R.fail("R09.3", m, c, cst, "the two frames are swapped relative to the edge's endpoints")
+            else:
+                R.undecided("R09.3", m, c, cst, f"first frame indexed by {norm(frame_index(m, c.args[0]) or ast.Constant('?'))}, second by "
+                            f"{norm(frame_index(m, c.args[1]) or ast.Constant('?'))}: provenance not recognised")
             # masked to the endpoint labels -> the single entry is the edge's own
             masked = all("np.where" in norm(single_def(m, a.id) or ast.Constant("")) for a in c.args if isinstance(a, ast.Name))
-            R.check(masked, "R09.4", m, c, f"{m.short}: frames are masked to the two endpoint labels, so the only entry is the edge's own",
-                    "frames are not masked to the endpoints: the first table entry need not belong to this edge", via="provenance")
+            if masked:
+                R.ok("R09.4", m, c, f"{m.short}: frames are masked to the two endpoint labels, so the only entry is the edge's own", via="provenance")
+            else:
+                R.undecided("R09.4", m, c, f"{m.short}: frames are masked to the two endpoint labels, so the only entry is the edge's own", "masking not recognised")
         # (b) calls of the helper with a grouped edge list
         if helper is not None:
             for c in calls_to(m, helper.name):
                 n_sites += 1
                 if len(c.args) != 3:
-                    R.fail("R09.3", m, c, f"{m.short}: helper call shape", "")
+                    R.undecided("R09.3", m, c, f"{m.short}: helper call shape", "not recognised")
                     continue
                 i1, i2 = frame_index(m, c.args[1]), frame_index(m, c.args[2])
                 loops = [lp for lp in ast.walk(m.node) if isinstance(lp, ast.For) and c in list(ast.walk(lp))]
@@ -127,8 +133,13 @@ def run(P: Program, R: Report, tier: str) -> None:
                 if loops:
                     lp = loops[-1]
                     # for (ta, tb), edges in groups.items():
-                    if isinstance(lp.target, ast.Tuple) and len(lp.target.elts) == 2 and isinstance(lp.target.elts[0], ast.Tuple) and isinstance(lp.iter, ast.Call) and call_name(lp.iter) == "items":
-                        ta, tb = [norm(x) for x in lp.target.elts[0].elts]
+                    key_t = lp.target.elts[0] if isinstance(lp.target, ast.Tuple) and len(lp.target.elts) == 2 else None
+                    if isinstance(key_t, ast.Name):
+                        # for frames, edges in groups.items():  ta, tb = frames
+                        un = [s_ for s_ in lp.body if isinstance(s_, ast.Assign) and isinstance(s_.targets[0], ast.Tuple) and norm(s_.value) == key_t.id and len(s_.targets[0].elts) == 2]
+                        key_t = un[0].targets[0] if un else None
+                    if isinstance(key_t, ast.Tuple) and isinstance(lp.iter, ast.Call) and call_name(lp.iter) == "items":
+                        ta, tb = [norm(x) for x in key_t.elts]
                         edges_var = norm(lp.target.elts[1])
                         groups = norm(lp.iter.func.value)
                         # groups[(get_time(u), get_time(v))].append((u, v))
@@ -145,6 +156,13 @@ def run(P: Program, R: Report, tier: str) -> None:
                                 u, v = norm(item.elts[0]), norm(item.elts[1])
                                 if norm(key.elts[0]).endswith(f"get_time({u})") and norm(key.elts[1]).endswith(f"get_time({v})"):
                                     good_fill = True
+                            # ta, tb = (get_time(n) for n in edge);  groups[(ta, tb)].append(edge)
+                            if isinstance(key, ast.Tuple) and len(key.elts) == 2 and isinstance(item, ast.Name):
+                                for s_ in ast.walk(m.node):
+                                    if isinstance(s_, ast.Assign) and isinstance(s_.targets[0], ast.Tuple) and [norm(x) for x in s_.targets[0].elts] == [norm(x) for x in key.elts] \
+                                            and isinstance(s_.value, (ast.GeneratorExp, ast.ListComp)) and norm(s_.value.generators[0].iter) == item.id \
+                                            and norm(s_.value.elt).endswith(f"get_time({norm(s_.value.generators[0].target)})"):
+                                        good_fill = True
                         if good_fill and fills and norm(c.args[0]) == edges_var and i1 is not None and i2 is not None and norm(i1) == ta and norm(i2) == tb:
                             ok = True
                         else:
@@ -152,8 +170,25 @@ def run(P: Program, R: Report, tier: str) -> None:
                     else:
                         why = (f"edges are `{norm(c.args[0])}` and the frames are indexed by `{norm(i1) if i1 is not None else '?'}` / `{norm(i2) if i2 is not None else '?'}`: "
                                "nothing ties the second frame to the time of each edge's target (a frame-skipping edge gets 0)")
-                R.check(ok, "R09.3", m, c, f"{m.short}: bulk kernel call receives edges grouped by (time(source), time(target)) and exactly those frames", why, via="provenance")
-    R.floor("R09.3", "kernel call sites", n_sites, 2)
+                cst = f"{m.short}: bulk kernel call receives edges grouped by (time(source), time(target)) and exactly those frames"
+                adjacent = any(isinstance(x, ast.BinOp) and isinstance(x.op, (ast.Add, ast.Sub)) and isinstance(x.right, ast.Constant) and x.right.value == 1
+                               for i_ in (i1, i2) if i_ is not None for x in ast.walk(i_))
+                if ok:
+                    R.ok("R09.3", m, c, cst, via="provenance")
+                elif adjacent or not (loops and isinstance(loops[-1].iter, ast.Call) and call_name(loops[-1].iter) == "items"):
+                    R.fail("R09.3", m, c, cst, why)
+                else:
+                    R.undecided("R09.3", m, c, cst, why)
+    R.floor("R09.3", "kernel call sites", n_sites, 1)
+    # no frame index is computed as (a time) +- 1: both endpoint times are looked up, never assumed adjacent
+    for m in ann.methods.values():
+        timev = {t.id for s_ in ast.walk(m.node) if isinstance(s_, ast.Assign) and "get_time(" in norm(s_.value) for t in s_.targets if isinstance(t, ast.Name)}
+        timev |= {lp_.target.id for lp_ in ast.walk(m.node) if isinstance(lp_, ast.For) and isinstance(lp_.target, ast.Name) and "range(" in norm(lp_.iter) and "shape" in norm(lp_.iter)}
+        for x in ast.walk(m.node):
+            if isinstance(x, ast.BinOp) and isinstance(x.op, (ast.Add, ast.Sub)) and isinstance(x.right, ast.Constant) and x.right.value == 1 and (
+                    (isinstance(x.left, ast.Name) and x.left.id in timev) or "get_time(" in norm(x.left)):
+                R.fail("R09.3", m, x, f"{m.short}: the frames of an edge are the frames at its endpoints' own times",
+                       f"`{norm(x)}` assumes the other endpoint lies in the adjacent frame: an edge that skips frames is compared against the wrong frame")
     # ---- R09.4 in the helper: match on both labels
     if helper is not None:
         ok = False
@@ -166,10 +201,37 @@ def run(P: Program, R: Report, tier: str) -> None:
                 if edge_def and writes and all(norm(w.args[0]) == norm(edge_def[0].targets[0]) and norm(w.args[2]) == v for w in writes):
                     guarded = any(isinstance(g, ast.If) and f"{norm(edge_def[0].targets[0])} in " in norm(g.test) for g in ast.walk(lp))
                     ok = guarded
-        R.check(ok, "R09.4", helper, helper.node, f"{helper.short}: an edge receives the kernel entry whose two labels are its endpoints",
-                "the value written is not selected by the (source label, target label) pair of the same kernel entry", via="provenance")
+        bad_single = None
         zero = any(isinstance(c, ast.Call) and call_name(c) == "_set_edge_attr" and norm(c.args[2]) == "0" for c in ast.walk(helper.node))
-        R.check(zero, "R09.4", helper, helper.node, f"{helper.short}: edges without an overlapping entry get 0", "", via="syntax")
+        for dc in ast.walk(helper.node):
+            # {(a, b): v for a, b, v in kernel(..)}  ...  table.get(edge, 0)
+            if isinstance(dc, ast.DictComp) and isinstance(dc.generators[0].target, ast.Tuple) and len(dc.generators[0].target.elts) == 3:
+                a, b, v = [norm(x) for x in dc.generators[0].target.elts]
+                tbl = [s_.targets[0].id for s_ in ast.walk(helper.node) if isinstance(s_, ast.Assign) and s_.value is dc and isinstance(s_.targets[0], ast.Name)]
+                if norm(dc.key) == f"({a}, {b})" and norm(dc.value) == v and tbl:
+                    writes = [c for c in ast.walk(helper.node) if isinstance(c, ast.Call) and call_name(c) == "_set_edge_attr" and len(c.args) >= 3]
+                    if writes and all(norm(w.args[2]) in (f"{tbl[0]}.get({norm(w.args[0])}, 0)", f"{tbl[0]}[{norm(w.args[0])}]") for w in writes):
+                        ok = True
+                        zero = zero or any(".get(" in norm(w.args[2]) and norm(w.args[2]).endswith(", 0)") for w in writes)
+                elif norm(dc.key) in (a, b):
+                    bad_single = dc
+        cst = f"{helper.short}: an edge receives the kernel entry whose two labels are its endpoints"
+        if ok:
+            R.ok("R09.4", helper, helper.node, cst, via="provenance")
+        elif bad_single is not None:
+            R.fail("R09.4", helper, bad_single, cst, f"`{norm(bad_single)[:70]}` keys the kernel entries by ONE label: a node overlapping several nodes of the other frame gives "
+                   "every one of its edges the same (last) value")
+        else:
+            one_sided = [g for g in ast.walk(helper.node) if isinstance(g, ast.If) and any(isinstance(c, ast.Call) and call_name(c) == "_set_edge_attr" for c in ast.walk(g))
+                         and isinstance(g.test, ast.Compare) and len(g.test.ops) == 1 and isinstance(g.test.ops[0], ast.Eq) and "[" in norm(g.test) and " and " not in norm(g.test)]
+            if one_sided:
+                R.fail("R09.4", helper, one_sided[0], cst, f"the entry is selected by `{norm(one_sided[0].test)}` only: it is matched on one endpoint label")
+            else:
+                R.undecided("R09.4", helper, helper.node, cst, "selection of the value not recognised")
+        if zero:
+            R.ok("R09.4", helper, helper.node, f"{helper.short}: edges without an overlapping entry get 0", via="syntax")
+        else:
+            R.undecided("R09.4", helper, helper.node, f"{helper.short}: edges without an overlapping entry get 0", "no default write recognised")
     update_guards(P, R, ann, "R09.5")
     from .annot import compute_is_memoryless
 
